@@ -36,6 +36,10 @@ def generating(spec, types):
     if spec.sub == "map":
         dest = {d.name for f in spec.dest for d in f.decls if isinstance(d, histgen.Struct)}
         return [t for t in types if t in dest]
+    if spec.sub == "enum":
+        # an explicitly named enum type without typed constants is an error (a -file / -type=* run skips it silently)
+        have = {d.ty for f in spec.hfiles for d in f.decls if isinstance(d, histgen.Consts) and d.cs}
+        return [t for t in types if t in have]
     return list(types)
 
 
